@@ -174,7 +174,7 @@ class RealReplay(object):
     def _cases(self):
         import itertools
         for codec, mod in (('gzip', Z), ('zstd', ZS)):
-            for msg in ([], [b''], [b'ab'], [b'a', b'', b'bc']):
+            for msg in ([], [b''], [b'ab'], [b'a', b'', b'bc'], [b'A' * (3 * 2 ** 20 + 5), b'z']):     # the last one: compressible data, a few stream bytes expand to megabytes
                 comp, done = _run(msg, mod.compress())
                 whole = b''.join(comp)
                 n = len(whole)
@@ -195,7 +195,7 @@ class RealReplay(object):
             else:
                 ok = done == ['C'] and b''.join(out) == b''.join(msg)
             if not ok:
-                return dict(verdict='REFUTED', paths=n, solver_queries=0, solver_s=0.0, cex=dict(args=[dict(codec=codec, msg=[list(m) for m in msg], chunks=[list(c) for c in chunks], kind=kind)], kwargs={}),
+                return dict(verdict='REFUTED', paths=n, solver_queries=0, solver_s=0.0, cex=dict(args=[dict(codec=codec, msg=[list(m) if len(m) < 64 else dict(repeat=m[0], count=len(m)) for m in msg], chunks=[list(c) for c in chunks], kind=kind)], kwargs={}),
                             detail=dict(codec=codec, message=repr(msg), chunks=repr(chunks), observed=repr(b''.join(out)), done=done, expected='on_error' if kind else 'payload then on_completed'))
         return dict(verdict='CONFIRMED', paths=n, solver_queries=0, solver_s=0.0)
 
@@ -203,7 +203,7 @@ class RealReplay(object):
         a = args[0]
         mod = Z if a['codec'] == 'gzip' else ZS
         chunks = [bytes(c) for c in a['chunks']]
-        msg = b''.join(bytes(m) for m in a['msg'])
+        msg = b''.join(bytes([m['repeat']]) * m['count'] if isinstance(m, dict) else bytes(m) for m in a['msg'])
         out, done = _run(chunks, mod.decompress())
         ok = (done == ['E']) if a['kind'] else (done == ['C'] and b''.join(out) == msg)
         return dict(reproduced=not ok, detail=dict(observed=repr(b''.join(out)), done=done))
